@@ -20,7 +20,21 @@
    "Rejected" = any exception, object unchanged. *)
 EXTENDS BondOps, TLC
 
-Extras == {"b_factor", "flag", "label"}
+(* Optional annotation categories.  An annotation holds ONE VALUE PER ATOM; that value is a scalar
+   (ScalarExtras: b_factor int/float, flag bool, label str) or is itself an ARRAY (ShapedExtras:
+   "vec" = 3 float32 numbers, "grid" = a 2 x 2 block of integers, "names" = 2 strings), i.e. the
+   annotation array has the shape <<n>> \o PerAtomShape(name) - (n,3), (n,2,2), (n,2).  The list-of-
+   atoms meaning of every operation is the same for both: the per-atom value (whatever its shape)
+   moves, is dropped, is overwritten, is repeated and is copied together with its atom; the LENGTH
+   of every annotation array (its first axis) stays the number of atoms and the per-atom shape
+   never changes.  The value is a fixed function of the atom's uid (the driver realises it), so
+   "it follows the atom" is observable, and AnnotShape is what the driver's projection requires of
+   the real array. *)
+ScalarExtras == {"b_factor", "flag", "label"}
+ShapedExtras == {"vec", "grid", "names"}
+Extras == ScalarExtras \cup ShapedExtras
+PerAtomShape(name) == CASE name = "vec" -> <<3>> [] name = "grid" -> <<2, 2>> [] name = "names" -> <<2>>
+                        [] OTHER -> <<>>
 
 N(S) == Len(S.a)
 D(S) == Len(S.z)
@@ -44,6 +58,9 @@ Coherent(S) ==
 
 Uids(S) == {S.a[k][1] : k \in 1..N(S)}
 UniqueUids(S) == Cardinality(Uids(S)) = N(S)
+\* shape of the annotation array of an optional category of S
+AnnotShape(S, name) == <<N(S)>> \o PerAtomShape(name)
+HasShaped(S) == S.ex \cap ShapedExtras # {}
 \* bonds expressed between atom uids (position independent)
 UidBonds(S) ==
   IF Has(S.bonds)
@@ -68,7 +85,9 @@ IndexAtomsBy(S, idx) ==
   ELSE IF Has(S.bonds) /\ HasDup(r.pos) THEN Rej(S)
   ELSE Ok(SelectAtoms(S, r.pos), <<>>)
 
-AtomOut(S, mi, p) == <<S.a[p + 1][1], S.a[p + 1][2], S.z[mi][p + 1]>>   \* uid, tag, cell
+\* uid, tag, cell, and the optional annotations the Atom object carries (each with the value of its
+\* uid - scalar or array-valued; an Atom taken out of a container is a value of its own)
+AtomOut(S, mi, p) == <<S.a[p + 1][1], S.a[p + 1][2], S.z[mi][p + 1], S.ex>>
 
 ModelAsArray(S, p) ==
   [S EXCEPT !.kind = "array", !.z = <<S.z[p + 1]>>,
